@@ -31,7 +31,7 @@ def specials(kind):
             "unreach_next": vloop.sp_fail_next("noport" if kind == "waveshare" else "unreachable")}
 
 
-def make_kwargs_factory(kind, base):
+def make_kwargs_factory(kind, base, status_mode="ok", recv_mode="ok"):
     pk = clientkit.std(kind)
     a = pk["A"]
     sp = specials(kind)
@@ -41,7 +41,7 @@ def make_kwargs_factory(kind, base):
                     script=[it_connect, it_feed(a[:7]), it_feed(a[7:]), it_feed(pk["A2"]),
                             it_send(lambda: clientkit.heading_message(66))],
                     specials=sp, deviations=devs, heal=steady_state(pk["PROBE"]),
-                    connect_plan=BASES[base])
+                    connect_plan=BASES[base], status_cb=status_mode, recv_cb=recv_mode)
     return make
 
 
@@ -90,10 +90,14 @@ def judge(kind, sess, o, probe_view):
         if not probes:
             out.append(("probe_not_sent", {}, "harness never probed the last connection (client stuck before CONNECTED?)"))
         else:
+            # with a slow callback a probe sent on an earlier connection may still be waiting in the client's
+            # queue, so count over the whole execution: the last probe must arrive, and no probe twice
             got = [v for (t, v) in o.received[probes[-1][2]:] if v == probe_view]
-            if len(got) != 1:
-                out.append(("probe_not_delivered", {"count": len(got)}, f"probe on connection {live.cid} delivered {len(got)} times; "
-                            f"received {len(o.received)} messages"))
+            total = sum(1 for (t, v) in o.received if v == probe_view)
+            sent = len(o.marks.get("probes", []))
+            if len(got) < 1 or total > sent:
+                out.append(("probe_not_delivered", {"count": len(got)}, f"probe on connection {live.cid} delivered {len(got)} times after it was sent "
+                            f"({total} probe deliveries for {sent} probes sent); received {len(o.received)} messages"))
     # back-off between attempts of one outage
     runs, cur = [], []
     for ev in sess.gw.log:           # total order of attempts and status notifications
@@ -121,8 +125,9 @@ def judge(kind, sess, o, probe_view):
 
 
 def _explore(args):
-    kind, base, k, names, first = args
-    make = make_kwargs_factory(kind, base)
+    kind, base, k, names, first = args[:5]
+    modes = args[5] if len(args) > 5 else ("ok", "ok")
+    make = make_kwargs_factory(kind, base, *modes)
     probe_view = expected_probe(kind)
     stats = {"judged": 0, "outcomes": set(), "nontrivial": 0, "boundaries_base": 0, "max_attempts": 0}
     vios, samples = [], []
@@ -139,9 +144,9 @@ def _explore(args):
             stats["nontrivial"] += 1
         for kind_v, facts, detail in judge(kind, sess, o, probe_view):
             vios.append({"kind": kind_v, "facts": dict(facts, client=kind),
-                         "signature": f"{kind_v}:{kind}:{base}:{[d[1] for d in devs]}",
-                         "detail": f"[{kind} base={base} devs={devs}] {detail}",
-                         "case": {"client": kind, "base": base, "deviations": [list(d) for d in devs]}})
+                         "signature": f"{kind_v}:{kind}:{base}:{modes}:{[d[1] for d in devs]}",
+                         "detail": f"[{kind} base={base} callbacks(status,receive)={modes} devs={devs}] {detail}",
+                         "case": {"client": kind, "base": base, "modes": list(modes), "deviations": [list(d) for d in devs]}})
         if len(samples) < 1 and len(devs) == k:
             samples.append({"client": kind, "base": base, "deviations": [list(d) for d in devs], "status": o.status,
                             "attempts": [(round(a.t, 3), a.outcome) for a in sess.gw.attempts], "received": len(o.received)})
@@ -171,6 +176,8 @@ def plan(ctx):
             tasks.append((kind, "r3", 1, names, None))
             tasks.append((kind, "r7", 1, ["eof", "reset"], None))
             tasks.append((kind, "n2" if kind == "waveshare" else "u2", 1, names, None))
+        for modes in (("slow", "ok"), ("raise", "raise"), ("ok", "slow")):
+            tasks.append((kind, "r1", 2 if ctx.thorough else 1, names, None, modes))
     return tasks
 
 
@@ -187,7 +194,7 @@ def run(ctx):
         judged += st["judged"]
         nontriv += st["nontrivial"]
         outcomes += st["outcomes"]
-        key = f"{t[0]}/{t[1]}/k{t[2]}"
+        key = f"{t[0]}/{t[1]}/k{t[2]}" + (f"/cb={t[5]}" if len(t) > 5 else "")
         e = per.setdefault(key, {"executions": 0, "judged": 0, "redundant": 0, "base_boundaries": st["boundaries_base"], "max_attempts": 0})
         e["executions"] += st["runs"]
         e["judged"] += st["judged"]
@@ -213,7 +220,7 @@ def run(ctx):
 
 def replay(ctx, rep):
     c = rep["case"]
-    make = make_kwargs_factory(c["client"], c["base"])
+    make = make_kwargs_factory(c["client"], c["base"], *c.get("modes", ["ok", "ok"]))
     devs = [tuple(d) for d in c["deviations"]]
     sess, o = vloop.run_session(**make(devs))
     sess2, o2 = vloop.run_session(**make(devs))
